@@ -73,7 +73,7 @@ FLOORS = {"quick": {"evaluations": 120, "pending_overlap_pairs": 150, "apdus_att
                     "replies_matched": 120, "distinct": 4,
                     "slow_request_rounds": 1, "link_fault_rounds": 3,
                     "rounds_with_a_client_hanging_up_on_its_long_request": 2,
-                    "rounds_in_legacy_mode": 6,
+                    "rounds_in_legacy_mode": 6, "rounds_on_the_sgx_platform": 6,
                     "device_error_replies_in_fault_rounds": 3,
                     "state_replies_compared_with_device_state": 30,
                     "advances_refused_by_device": 10, "late_answer_rounds_over_tcp": 2, "slow_sender_rounds": 3,
@@ -82,7 +82,7 @@ FLOORS = {"quick": {"evaluations": 120, "pending_overlap_pairs": 150, "apdus_att
                        "apdus_attributed": 200000, "replies_matched": 15000, "distinct": 300,
                        "slow_request_rounds": 5, "link_fault_rounds": 60,
                        "rounds_with_a_client_hanging_up_on_its_long_request": 40,
-                       "rounds_in_legacy_mode": 100,
+                       "rounds_in_legacy_mode": 100, "rounds_on_the_sgx_platform": 100,
                        "device_error_replies_in_fault_rounds": 100,
                        "state_replies_compared_with_device_state": 3000,
                        "advances_refused_by_device": 1000, "late_answer_rounds_over_tcp": 40, "slow_sender_rounds": 40}}
@@ -94,6 +94,7 @@ def shards(tier, seed):
                  "slow": [6.5] if i == 0 else [],
                  "impatient": [3.5] if i in (1, 2) else [],
                  "v1_rounds": 2 if i in (0, 3, 6, 7) else 0,
+                 "sgx_rounds": 2 if i in (1, 2, 4, 5) else 0,
                  "fault_rounds": 1 if 1 <= i <= 3 else 0,
                  "late": [12.5, 35.0] if i in (4, 5) else [],
                  "slowsend_rounds": 1 if i in (5, 6, 7) else 0,
@@ -102,7 +103,7 @@ def shards(tier, seed):
                  "uihb_tail": [12.5] if i == 2 else []} for i in range(8)]
     slow = {0: [6.5], 1: [12.0], 2: [32.0], 3: [62.0], 4: [125.0]}
     return [{"seed": seed * 100 + i, "rounds": 60, "max_clients": 16, "per_client": 4,
-             "slow": slow.get(i, []), "impatient": [3.5, 6.5, 12.0], "v1_rounds": 8,
+             "slow": slow.get(i, []), "impatient": [3.5, 6.5, 12.0], "v1_rounds": 8, "sgx_rounds": 8,
              "fault_rounds": 6 if i >= 5 else 0,
              "late": [10.5, 35.0, 12.5, 61.0, 30.0, 29.0] if i >= 5 else [],
              "slowsend_rounds": 3, "fatal_rounds": 8,
@@ -275,7 +276,7 @@ def expected_from_apdus(kind, apdus):
 
 
 def run_round(acc, spec, rnd, rng, slow=None, fault=None, late=None, slowsend=False,
-              uihb_tail=None, fatal=None, quiet=None, impatient=None, v1=False):
+              uihb_tail=None, fatal=None, quiet=None, impatient=None, v1=False, plat=None):
     """fault: {"after": k, "efail": j, "kind": ...} - the link fails at the k-th exchange
     of the round and the next j reconnections find no device; clients keep sending for
     some seconds, so that any repair work done outside a request (a background retry)
@@ -288,7 +289,9 @@ def run_round(acc, spec, rnd, rng, slow=None, fault=None, late=None, slowsend=Fa
     # late: the signer is reached over TCP (a byte stream) and one of its answers takes
     # `late` seconds of virtual time; should anything give up on that answer, it still
     # arrives on the stream and must not be taken for the answer to a later exchange
-    dev = fresh_device(rng, "tcp" if late else "ledger")
+    dev = fresh_device(rng, plat or ("tcp" if late else "ledger"))
+    if plat == "sgx":
+        dev.unlocked = True
     if uihb_tail:
         # uihb_tail: a uiHeartbeat that fails after the signer was left (the device does not
         # return from the heartbeat app at once), then `uihb_tail` seconds of steady
@@ -370,6 +373,9 @@ def run_round(acc, spec, rnd, rng, slow=None, fault=None, late=None, slowsend=Fa
             time.sleep(0.002)
         bring_up = len(s.bus.events)
         gens = make_requests(rng, v1)
+        if plat == "sgx":
+            # (no signer heartbeat on SGX)
+            gens = [g_ for g_ in gens if g_[0] != "heartbeat"]
         results = {}
         plan = {}
         for c in range(nclients):
@@ -415,6 +421,16 @@ def run_round(acc, spec, rnd, rng, slow=None, fault=None, late=None, slowsend=Fa
                     "command": "version"})] + plan[c][2:] + plan[c][:2]
             jc = JumpClock()
             jc.install()
+            # ... and whatever the manager schedules with timers of its own (keep-alives,
+            # watchdogs of a minute or more) comes due 400 times sooner: what would fire
+            # after the quiet period fires while the clients are back
+            real_timer = threading.Timer
+
+            def scaled_timer(interval, function, args=None, kwargs=None):
+                rec.add("timer", seconds=interval)
+                return real_timer(interval / 400.0 if interval >= 5 else interval, function,
+                                  args, kwargs)
+            threading.Timer = scaled_timer
 
             def _jump():
                 jc.offset += quiet
@@ -568,6 +584,7 @@ def run_round(acc, spec, rnd, rng, slow=None, fault=None, late=None, slowsend=Fa
         t.join(10)
         if quiet:
             jc.uninstall()
+            threading.Timer = real_timer
         # (process-wide socket defaults are not the harness's to keep from round to round)
         socket.setdefaulttimeout(None)
         alive = any(th.is_alive() for th in threads)
@@ -761,6 +778,15 @@ def run_shard(spec, acc):
                 "after": rng.randint(2, 8), "efail": rng.choice([None, 1]),
                 "gap": rng.choice([1.3, 1.7]),
                 "kind": rng.choice(["read_error", "write_error"])})
+    for k in range(spec.get("sgx_rounds", 0)):
+        # the SGX platform (its own dongle class): plain rounds and rounds with a quiet
+        # period after which timers of the manager's own would come due
+        acc.count("rounds_on_the_sgx_platform")
+        if k % 2 == 0:
+            run_round(acc, spec, 9500 + k, rng, plat="sgx")
+        else:
+            run_round(acc, dict(spec, max_clients=max(4, spec["max_clients"]), per_client=4),
+                      9500 + k, rng, plat="sgx", quiet=rng.choice([110.0, 119.0, 125.0, 601.0]))
     for k in range(spec.get("slowsend_rounds", 0)):
         run_round(acc, dict(spec, max_clients=6, per_client=4), 4000 + k, rng, slowsend=True)
     for k, d in enumerate(spec.get("uihb_tail", [])):
